@@ -138,7 +138,7 @@ def run(ctx):
     thms = ctx.build_and_audit(["NutsProofs.Props.C18"])
     required = ["did_url_roundtrip", "fetch_origin_bound", "redirects_stay_on_origin", "strict_client_https_only",
                 "redirect_witness", "id_bound_web", "id_bound", "jwk_key_pure", "local_first_no_network",
-                "deactivated_needs_flag", "local_store_fault_no_network", "fact_local_resolver_errors", "fact_local_time_bound", "fact_cache_index", "fact_cache_flow", "rcache_invariant", "rcache_hit_sound", "rcache_hit_same_url", "rcache_hit_not_expired", "old_cache_defect_witness", "fact_local_lookup_query", "local_lookup_exact", "local_lookup_ignores_other_dids", "local_sql_refines", "local_resolution_independent_of_other_dids", "cache_key_injective", "cache_no_foreign_entry", "fact_sets", "fact_content_types", "fact_redirect_policy", "fact_router",
+                "deactivated_needs_flag", "local_store_fault_no_network", "fact_local_resolver_errors", "fact_local_time_bound", "fact_cache_index", "fact_cache_flow", "rcache_invariant", "rcache_hit_sound", "rcache_hit_same_url", "fact_did_key_table", "did_key_accept_sound", "multicodec_prefix_roundtrip", "rcache_hit_not_expired", "old_cache_defect_witness", "fact_local_lookup_query", "local_lookup_exact", "local_lookup_ignores_other_dids", "local_sql_refines", "local_resolution_independent_of_other_dids", "cache_key_injective", "cache_no_foreign_entry", "fact_sets", "fact_content_types", "fact_redirect_policy", "fact_router",
                 "fact_deactivation", "fact_resolve_checks_document_id", "fact_strict_do"]
     for r in required:
         if not any(t.endswith("Props." + r) for t in thms):
@@ -301,7 +301,7 @@ def run(ctx):
                 continue
             n, out = int(m.group(1)), m.group(2)
             distinct.add(key)
-            outcomes["resolve " + ":".join(out.split(":")[:2] if out.startswith("err") else out.split(":")[:1])] += 1
+            outcomes["resolve " + ":".join(out.split(":")[:(4 if out.startswith("err:invalid-key") else 2)] if out.startswith("err") else out.split(":")[:1])] += 1
             meth = bytes.fromhex(op.get("m", ""))
             didb = b"did:" + meth + b":" + bytes.fromhex(op.get("id", ""))
             if meth == b"x509" and n:
@@ -312,6 +312,24 @@ def run(ctx):
                 prev = digests.setdefault(didb, op.get("digest"))
                 if prev != op.get("digest"):
                     violation("not-a-function-of-the-identifier", f"two resolutions of {didb[:60]!r} (different nodes / times) gave different documents", node_line + "\n" + opl)
+            if meth == b"key" and out.startswith("ok") and op.get("mc") is not None:
+                mcb = bytes.fromhex(op["mc"])
+                code, sh, used = 0, 0, 0
+                for used, b in enumerate(mcb[:10], 1):      # unsigned LEB128, read independently of model and implementation
+                    code |= (b & 0x7f) << sh
+                    sh += 7
+                    if b < 0x80:
+                        break
+                klen = len(mcb) - used
+                want = {0xec: 32, 0xed: 32, 0x1200: 33, 0x1201: 49, 0x1202: None, 0x1205: None}
+                if code not in want:
+                    violation("did-key-accepted-with-unsupported-codec", f"{didb[:80]!r} resolved although its multicodec 0x{code:x} is not a supported public key type", node_line + "\n" + opl)
+                elif want[code] is not None and klen != want[code]:
+                    violation("did-key-accepted-with-wrong-key-length", f"{didb[:80]!r} resolved: codec 0x{code:x} with a key of {klen} bytes (must be {want[code]})", node_line + "\n" + opl)
+                elif code == 0x1205 and op.get("rsa") != "ok":
+                    violation("did-key-accepted-weak-or-broken-rsa", f"{didb[:60]!r} resolved although the PKCS#1 verdict on its key is {op.get('rsa')!r}", node_line + "\n" + opl)
+                elif code in (0x1200, 0x1201, 0x1202) and not op.get("ecok"):
+                    violation("did-key-accepted-invalid-curve-point", f"{didb[:80]!r} resolved although its key bytes are not a point of the curve", node_line + "\n" + opl)
             if meth in (b"jwk", b"key") and n:
                 violation("network-for-" + meth.decode(), f"{n} outbound request(s) while resolving {didb!r}", node_line + "\n" + opl)
             if op.get("fault") and meth == b"web" and (n or out.startswith("ok")):
